@@ -58,6 +58,21 @@ pub struct Presentation {
     pub f32_as_f64: bool,
     /// what the format answers to is_human_readable() (the serializer that produced the output answered the same)
     pub human_readable: bool,
+    /// map forms only: besides the written entries the map also holds entries the number does not know (a file written
+    /// by a newer version, a record embedded in a larger one) or one entry twice with the same value.  An impl may
+    /// refuse these (deny_unknown_fields, duplicate-field errors): Err is tolerated, Ok must restore exactly.
+    #[serde(default)]
+    pub noise: Noise,
+}
+
+#[derive(Clone, Copy, Debug, Serialize, Deserialize, PartialEq, Default)]
+pub enum Noise {
+    #[default]
+    None,
+    /// unknown entries (a float, a nested struct) at seeded positions
+    Unknown(u64),
+    /// one entry delivered twice (same value)
+    Duplicate(u64),
 }
 
 #[derive(Clone, Debug, Serialize, Deserialize, PartialEq)]
@@ -160,7 +175,7 @@ impl<'de> de::Deserializer<'de> for SimDe<'de> {
             }
             Node::Struct { name, fields } => {
                 access(self.st, "struct", name)?;
-                let order = order_of(self.p, fields, self.path);
+                let order = if self.p.shape == Shape::Seq { order_of(self.p, fields, self.path) } else { with_noise(order_of(self.p, fields, self.path), self.p.noise, self.path) };
                 match self.p.shape {
                     Shape::Map | Shape::MapByHint => v.visit_map(MapAcc { fields, order, pos: 0, pending: None, de: self }),
                     Shape::Seq => v.visit_seq(SeqAcc { fields, pos: 0, de: self }),
@@ -185,6 +200,7 @@ impl<'de> de::Deserializer<'de> for SimDe<'de> {
                     }
                 }
             }
+            let order = with_noise(order, self.p.noise, self.path);
             return v.visit_map(MapAcc { fields, order, pos: 0, pending: None, de: self });
         }
         self.deserialize_any(v)
@@ -196,10 +212,37 @@ impl<'de> de::Deserializer<'de> for SimDe<'de> {
 
 struct MapAcc<'de> {
     fields: &'de [(String, Node)],
+    /// indices into `fields`; EXTRA_F / EXTRA_S stand for an unknown float / an unknown nested entry
     order: Vec<usize>,
     pos: usize,
     pending: Option<usize>,
     de: SimDe<'de>,
+}
+
+const EXTRA_F: usize = usize::MAX;
+const EXTRA_S: usize = usize::MAX - 1;
+static UNKNOWN_FLOAT: Node = Node::F64(0x4045_0000_0000_0000);
+
+fn with_noise(mut order: Vec<usize>, noise: Noise, path: u64) -> Vec<usize> {
+    match noise {
+        Noise::None => {}
+        Noise::Unknown(seed) => {
+            let mut r = Rng::new(crate::rng::mix(seed, path));
+            for _ in 0..1 + r.below(2) {
+                let at = r.below(order.len() + 1);
+                order.insert(at, if r.chance(500) { EXTRA_F } else { EXTRA_S });
+            }
+        }
+        Noise::Duplicate(seed) => {
+            let mut r = Rng::new(crate::rng::mix(seed, path));
+            if !order.is_empty() {
+                let which = order[r.below(order.len())];
+                let at = r.below(order.len() + 1);
+                order.insert(at, which);
+            }
+        }
+    }
+    order
 }
 
 impl<'de> de::MapAccess<'de> for MapAcc<'de> {
@@ -210,15 +253,22 @@ impl<'de> de::MapAccess<'de> for MapAcc<'de> {
             return Ok(None);
         }
         let i = self.order[self.pos];
-        access(self.de.st, "key", &self.fields[i].0)?;
+        let (name, index): (&'de str, u64) = if i == EXTRA_F || i == EXTRA_S { ("zz_unknown", self.fields.len() as u64 + 7) } else { (&self.fields[i].0, i as u64) };
+        access(self.de.st, "key", name)?;
         self.pending = Some(i);
-        seed.deserialize(KeyDe { name: &self.fields[i].0, index: i as u64, form: self.de.p.keys }).map(Some)
+        seed.deserialize(KeyDe { name, index, form: self.de.p.keys }).map(Some)
     }
     fn next_value_seed<S: DeserializeSeed<'de>>(&mut self, seed: S) -> Result<S::Value, SimError> {
         let Some(i) = self.pending.take() else {
             return Err(SimError::Custom("next_value called without a preceding next_key".into()));
         };
         self.pos += 1;
+        if i == EXTRA_F || i == EXTRA_S {
+            access(self.de.st, "value", "zz_unknown")?;
+            // an unknown float, or an unknown record shaped like the enclosing one (presented without further noise)
+            let node: &'de Node = if i == EXTRA_F || self.fields.is_empty() { &UNKNOWN_FLOAT } else { &self.fields[0].1 };
+            return seed.deserialize(SimDe { node, path: crate::rng::mix(self.de.path, 0xEE), ..self.de });
+        }
         access(self.de.st, "value", &self.fields[i].0)?;
         seed.deserialize(SimDe { node: &self.fields[i].1, path: crate::rng::mix(self.de.path, i as u64 + 1), ..self.de })
     }
